@@ -252,6 +252,9 @@ func restExpect(q rreq, now0, now1 int64) rexp {
 			return rexp{Fail: true}
 		}
 		cfg := map[string]any{"hash_function": refAlgoName(rs.Hash), "code_digits": uint64(rs.Digits), "include_counter": rs.C, "include_challenge": rs.Q, "include_password": rs.P, "include_session": rs.S, "include_timestamp": rs.T}
+		// metadata of inputs the name does not select is absent or zero (uint64 0 also matches an absent field):
+		// the reported configuration says what the name says and nothing else
+		cfg["challenge_format"], cfg["password_hash"], cfg["timestep"] = uint64(0), uint64(0), uint64(0)
 		if rs.Q {
 			cfg["challenge_format"] = uint64(rs.QFormat)
 		}
